@@ -99,6 +99,7 @@ type Rig struct {
 	wg             sync.WaitGroup
 	baseline       int
 	lateShutdown   atomic.Bool // shutdownResolver's report did not show within the watchdog (set by the call goroutine)
+	predicted      bool        // whether the model expects the open split subscribe to reach its window
 	unsound        bool        // a wait expired while something was still running: the model no longer describes the run
 	openGoroutines int         // goroutines of the open split: the parked call (and its worker), blocked nested calls
 	stepNo         int
@@ -239,8 +240,8 @@ func (g *Rig) runTop(st Step) {
 		switch st.Split.Point {
 		case PtUpdate, PtWFlush:
 			g.openGoroutines = 2 // the calling goroutine waits for its fan-out worker, which is parked
-			if st.Op == OpUpdateSub {
-				g.openGoroutines = 1 // UpdateSubscription delivers on the calling goroutine
+			if st.Op != OpEvent {
+				g.openGoroutines = 1 // UpdateSubscription delivers on the calling goroutine; start failures are written by the start goroutine
 			}
 		default:
 			g.openGoroutines = 1
@@ -325,12 +326,13 @@ func (g *Rig) arm(st Step) {
 }
 
 func (g *Rig) waitPark(st Step, done chan struct{}) bool {
-	trigger := st.Split.Point == PtStart || st.Split.Point == PtInit
-	if trigger {
-		// the model says whether this subscribe creates a trigger whose start goroutine gets there
-		s := g.m.Subs[st.Sub]
-		expect := s.Registered && g.m.Periods[s.Period].Creator == s.Idx && !(st.Split.Point == PtInit && (st.Hook == HookFail || st.StartMode != StartOK))
-		// the subscribe call itself returns at once (the start goroutine is another one)
+	// Windows in a trigger's start goroutine: the call itself (subscribe, releaseStart) returns at
+	// once, the goroutine gets to the window later. The model says whether it does.
+	if st.Op == OpSubscribe || st.Op == OpReleaseStart {
+		expect := g.predicted
+		if st.Op == OpReleaseStart {
+			expect = g.m.PredictReach(st)
+		}
 		if !g.waitDone(done, "return of "+st.String()) {
 			return false
 		}
@@ -479,6 +481,7 @@ func (g *Rig) prepare(st Step) func() {
 		reached := false
 		if st.Split != nil {
 			reached = g.m.PredictReach(st)
+			g.predicted = reached
 		}
 		g.cfgMu.Lock()
 		g.cfgs[st.Sub] = subCfg{hook: st.Hook, start: st.StartMode}
